@@ -151,6 +151,10 @@ def run(ctx):
     if ctx.floor("C09.bbr", "bbr helper (bool fn reachable from the system decision)", len(bbr_bodies), 1):
         bbr(ctx, f, bbr_bodies[0], cfg)
     slot(ctx, f, chk, dec, cfg)
+    # the thresholds compared are the ones last loaded: a reload that changes a parameter is not mistaken for "unchanged"
+    # (system::load_rules skips the update when the new list equals the current one)
+    from . import rules_C11
+    rules_C11.eq_coverage(ctx, f, "system", "core::system::rule::Rule", cfg, R="C09.rules-current/equality")
 
 
 def _cmps(p):
